@@ -70,6 +70,19 @@ def leaf_replay(pid, L, res):
         {"label": "repaired-honest", "mode": "leaf_repair", "named": named, "flags": flags, "cut16": cut16},
         {"label": "repaired-adversarial", "mode": "leaf_repair_adv", "named": named, "flags": flags, "cut16": cut16, "classes": free},
     ]
+    if not flags.get("model_is_dummy"):
+        # third variant: where the model's public hash values DEVIATE from the (uninterpreted) hash of the circuit's own inputs,
+        # transplant the deviation onto the real hash (a relation such as 'limb differences sum to zero' survives the repair)
+        h_null = sp.hash(sp.hash(salt_n + secret + L.I("null_tc")))
+        h_bh = sp.hash(hdr)
+        deltas = {}
+        if not flags["nullifier"]:
+            deltas["nullifier"] = [(ev(a) - ev(b)) % P for a, b in zip(L.nullifier, h_null)]
+        if not flags["block_hash"]:
+            deltas["block_hash"] = [(ev(a) - ev(b)) % P for a, b in zip(L.bh, h_bh)]
+        if deltas:
+            assigns.append({"label": "repaired-with-deviation", "mode": "leaf_repair", "named": named, "flags": flags, "cut16": cut16, "deltas": deltas})
+            assigns.append({"label": "repaired-with-deviation-adversarial", "mode": "leaf_repair_adv", "named": named, "flags": flags, "cut16": cut16, "classes": free, "deltas": deltas})
     out = csxlib.replay(pid, "leaf", assigns)
     path = csxlib.replay_path(pid)
     json.dump({"query": res.name, "assignments": assigns, "replay": out}, open(path, "w"))
